@@ -397,6 +397,64 @@ pub fn run(ctx: &Ctx) -> Result<(), String> {
             }
         }
     }
+    // the SRV value in use: a request addressed to SHA-512(0xff || pk)[..32] is answered (and one
+    // addressed to another value is not), for seeds whose SRV value has a zero / 0xff / white-space
+    // byte at either end (found by search)
+    {
+        let wants: [(&str, usize, u8); 6] = [("srv-ends-in-00", 31, 0), ("srv-begins-with-00", 0, 0), ("srv-ends-in-ff", 31, 0xff), ("srv-ends-in-20", 31, 0x20), ("srv-ends-in-0a", 31, 0x0a), ("srv-begins-with-ff", 0, 0xff)];
+        let mut special: Vec<(&str, [u8; 32])> = vec![];
+        let mut k = 0u64;
+        while special.len() < wants.len() && k < 40000 {
+            let seed: [u8; 32] = crypto::sha512(&[b"c10-srv-search", &k.to_le_bytes()])[..32].try_into().unwrap();
+            let srv = crypto::srv_value(&crypto::public_key(&seed));
+            for (what, at, b) in wants.iter() {
+                if srv[*at] == *b && !special.iter().any(|s| s.0 == *what) {
+                    special.push((*what, seed));
+                }
+            }
+            k += 1;
+        }
+        ctx.cov("special_srv_seeds", json!({"found": special.iter().map(|s| s.0).collect::<Vec<_>>(), "searched": k}));
+        par_for(special.len(), 1, |j, _| {
+            let (what, seed) = special[j];
+            let pk = crypto::public_key(&seed);
+            let srv = crypto::srv_value(&pk);
+            let r = crate::util::on_named_thread("worker-0", move || -> Result<Option<String>, String> {
+                let mut s = Srv::new(&SrvCfg { seed, ..Default::default() })?;
+                let mut other = srv;
+                other[16] ^= 1;
+                let cases: Vec<(&str, Vec<u8>, Version, bool)> = vec![
+                    ("ietf-with-own-srv", rtref::responder::ietf_request(&rtref::proto::VER_IETF13, Some(&srv), &crate::inproc::nonce(0xc10_5000, 32), 1024), Version::Ietf13, true),
+                    ("ietf-without-srv", rtref::responder::ietf_request(&rtref::proto::VER_IETF13, None, &crate::inproc::nonce(0xc10_5001, 32), 1024), Version::Ietf13, true),
+                    ("ietf-with-other-srv", rtref::responder::ietf_request(&rtref::proto::VER_IETF13, Some(&other), &crate::inproc::nonce(0xc10_5002, 32), 1024), Version::Ietf13, false),
+                    ("classic", rtref::responder::std_request(Version::Classic, &crate::inproc::nonce(0xc10_5003, 64)), Version::Classic, true),
+                ];
+                for (name, req, v, must) in cases {
+                    let c = crate::inproc::Client::new();
+                    c.send(s.addr, &req);
+                    s.settle().map_err(|p| format!("panic: {}", p))?;
+                    let got = c.drain();
+                    if must && (got.len() != 1 || rtref::verifier::authentic(&got[0].0, &req, v, Some(&pk), rtref::verifier::SERVER_VIEW).is_err()) {
+                        return Ok(Some(format!("{}: {} replies / not authentic under the seed's key", name, got.len())));
+                    }
+                    if !must && !got.is_empty() {
+                        return Ok(Some(format!("{}: answered although addressed to another server", name)));
+                    }
+                }
+                Ok(None)
+            });
+            evals.fetch_add(4, Relaxed);
+            nontrivial.fetch_add(4, Relaxed);
+            match r {
+                Err(e) => *failed.lock().unwrap() = Some(e),
+                Ok(None) => {}
+                Ok(Some(msg)) => ctx.violation("srv-value-not-honoured", "request-gate", what, json!({"kind":"srv-addressed","seed":hex(&seed),"srv":hex(&srv),"shape":what,"message":msg})),
+            }
+        });
+        if let Some(e) = failed.lock().unwrap().take() {
+            return Err(e);
+        }
+    }
     // the real server binary started from a configuration FILE and from the environment for seeds
     // whose hex spelling invites a YAML parser to read something else (all decimal digits, leading
     // zeros, upper case): if it starts, the key it announces and certifies with is the key of the
@@ -544,7 +602,7 @@ pub fn run(ctx: &Ctx) -> Result<(), String> {
     ctx.cov("reply_certs_checked", json!(certs_seen.load(Relaxed)));
     ctx.cov("restart_seeds", json!(seeds.len()));
     ctx.cov("exhaustive", json!(true));
-    ctx.cov("rule", json!("key part: per seed of the structured alphabet (zero, ff, RFC 8032 vectors, single-bit, single-byte-value, seeded random) three constructions give public key == Ed25519(seed) (dalek direct, RFC 8032 anchored) and SRV == SHA-512(0xff||pk)[0..32]; all sequences of length <= L over {make_cert(classic), make_cert(ietf)} x {fresh online key, online key A again, online key B again} on ONE LongTermKey, each CERT = DELE{PUBK(the online key),MINT,MAXT} signed under that version's delegation context and NOT verifying under the other version's. Live part: per seed 4 restarts of a real in-process Server (two with fault_percentage 0, two with 50; replies parsed leniently so that deliberately invalid ones are examined too) x event histories (C09 alphabet); the announced key equals the reference key; the CERT of every datagram emitted by either responder passes the same check and its window contains the reply's MIDP; and the real Responder driven with batches in which some replies cannot be sent (unsendable return addresses): every reply that arrives, in that batch and all later ones, carries such a CERT. Process: the real server started from file and ENV with seeds whose hex spelling a YAML parser may read differently (all digits, leading zeros, exponent form, upper case): if it starts, it announces and certifies with the written seed's key; a 4-worker server in the modes plain / health-check port / per-client statistics / both (ENV), and the server built with the Cargo feature `fuzzing` (plain, statistics): every worker's announcement and the replies of all workers verify under the seed's key. Non-trivial = a cert sequence or an emitted reply's CERT."));
+    ctx.cov("rule", json!("key part: per seed of the structured alphabet (zero, ff, RFC 8032 vectors, single-bit, single-byte-value, seeded random) three constructions give public key == Ed25519(seed) (dalek direct, RFC 8032 anchored) and SRV == SHA-512(0xff||pk)[0..32]; all sequences of length <= L over {make_cert(classic), make_cert(ietf)} x {fresh online key, online key A again, online key B again} on ONE LongTermKey, each CERT = DELE{PUBK(the online key),MINT,MAXT} signed under that version's delegation context and NOT verifying under the other version's. Live part: per seed 4 restarts of a real in-process Server (two with fault_percentage 0, two with 50; replies parsed leniently so that deliberately invalid ones are examined too) x event histories (C09 alphabet); the announced key equals the reference key; the CERT of every datagram emitted by either responder passes the same check and its window contains the reply's MIDP; and the real Responder driven with batches in which some replies cannot be sent (unsendable return addresses): every reply that arrives, in that batch and all later ones, carries such a CERT. SRV in use: for seeds whose SRV value has a 00 / ff / white-space byte at an end, a request addressed to SHA-512(0xff||pk)[..32] is answered and one addressed to another value is not. Process: the real server started from file and ENV with seeds whose hex spelling a YAML parser may read differently (all digits, leading zeros, exponent form, upper case): if it starts, it announces and certifies with the written seed's key; a 4-worker server in the modes plain / health-check port / per-client statistics / both (ENV), and the server built with the Cargo feature `fuzzing` (plain, statistics): every worker's announcement and the replies of all workers verify under the seed's key. Non-trivial = a cert sequence or an emitted reply's CERT."));
     ctx.sample(json!({"kind":"certseq","mask":"0b0110","len":4,"versions":["classic","ietf13","ietf13","classic"]}));
     ctx.sample(json!({"kind":"restart","restarts":4,"events":["C0","I1","step"]}));
     ctx.assume("ed25519-dalek arithmetic trusted (RFC 8032 vectors); seeds are a structured alphabet, not all 2^256");
